@@ -43,4 +43,17 @@ def main():
         c02_cmp = None
     if c02_cmp is not None:
         c02_cmp.run(R)
+    # S1 tie: the wrapper's real Definition.Compare against the hypothesis trace_cmp_fun: props/c02_compare.py
+    try:
+        import c02_compare
+    except ImportError:
+        c02_compare = None
+    if c02_compare is not None:
+        c02_compare.run(R)
+    # C05 -> C02 bridge theorems (accepted wire messages satisfy Net.v's deliverability premise)
+    try:
+        import c05_bridge
+        c05_bridge.run(R)
+    except ImportError:
+        pass
     R.finish()
